@@ -1,9 +1,11 @@
 package props
 
 import (
+	"bytes"
 	"encoding/binary"
 	"encoding/hex"
 	"fmt"
+	"sort"
 	"testing"
 
 	ccpb "github.com/google/go-tdx-guest/proto/checkconfig"
@@ -281,6 +283,66 @@ func TestC14(t *testing.T) {
 				Replay: map[string]any{"kind": "policy", "raw_hex": hex.EncodeToString(q.Encode()), "policy": fieldsJSON(p), "no_header": noH, "no_body": noB, "nil_policy": nilP}})
 		}
 	}
+	// Long allow-lists against values at the ends of the byte order: the quote's MR_TD all-ones, all-zero, just above /
+	// below every entry, equal to the first / the last / a middle entry; lists of 1 .. 65 well-formed entries, as drawn,
+	// ascending and descending.
+	gen.Direct(t, "long-allow-lists-and-extreme-values", func(t *testing.T) {
+		i := 0
+		for _, n := range []int{1, 2, 15, 16, 17, 18, 32, 33, 64, 65} {
+			for _, order := range []string{"as-drawn", "ascending", "descending"} {
+				for _, val := range []string{"all-ones", "all-zero", "above-every-entry", "below-every-entry", "first-entry", "last-entry", "middle-entry", "random-absent"} {
+					i++
+					if !gen.ShardOwns(i) {
+						continue
+					}
+					s := gen.NewStream(gen.Seed()+uint64(i), "c14long")
+					q := gen.RandomRefQuote(s, 8, 16, 0)
+					binary.LittleEndian.PutUint64(q.Xfam[:], gen.XfamFixed1)
+					binary.LittleEndian.PutUint64(q.TdAttr[:], 0)
+					list := make([][]byte, n)
+					for k := range list {
+						list[k] = s.Bytes(48)
+						list[k][0] = byte(0x10 + s.Intn(0xd0)) // leaves room above and below
+					}
+					switch order {
+					case "ascending":
+						sort.Slice(list, func(a, b int) bool { return bytes.Compare(list[a], list[b]) < 0 })
+					case "descending":
+						sort.Slice(list, func(a, b int) bool { return bytes.Compare(list[a], list[b]) > 0 })
+					}
+					var mr []byte
+					switch val {
+					case "all-ones":
+						mr = bytes.Repeat([]byte{0xff}, 48)
+					case "all-zero":
+						mr = make([]byte, 48)
+					case "above-every-entry":
+						mr = append([]byte{0xf0}, s.Bytes(47)...)
+					case "below-every-entry":
+						mr = append([]byte{0x01}, s.Bytes(47)...)
+					case "first-entry":
+						mr = append([]byte{}, list[0]...)
+					case "last-entry":
+						mr = append([]byte{}, list[n-1]...)
+					case "middle-entry":
+						mr = append([]byte{}, list[n/2]...)
+					default:
+						mr = s.Bytes(48)
+					}
+					copy(q.MrTd[:], mr)
+					pf := &gen.PolicyFields{AnyMrTd: list}
+					gen.Class("long-allow-list:" + val)
+					gen.NonTrivial("long-list", n, order, val)
+					if key, oracle, detail := c14Oracle(q, pf, false, false, false); key != "" {
+						gen.Fail(t, gen.Violation{Key: key, Oracle: oracle, Detail: fmt.Sprintf("any_mr_td of %d entries (%s), quote's MR_TD %s: %s", n, order, val, detail),
+							Replay: map[string]any{"kind": "policy", "raw_hex": hex.EncodeToString(q.Encode()), "policy": fieldsJSON(pf), "no_header": false, "no_body": false, "nil_policy": false}})
+						return
+					}
+				}
+			}
+		}
+		gen.Exhaustive("10 list lengths x 3 orders x 8 positions of the quote's MR_TD relative to the list", true)
+	})
 	gen.Prop(t, "dense", gen.N(40000, 4000000), func(t *rapid.T) { run(t, false) })
 	gen.Prop(t, "sparse", gen.N(40000, 4000000), func(t *rapid.T) { run(t, true) })
 }
